@@ -23,7 +23,7 @@ import numpy as _np
 import sympy as sp
 
 from . import sym
-from .sym import A, S, T, Shape, SymBranch, Unsupported, ShapeError, has_sym
+from .sym import A, S, T, Shape, Dep, DepMethod, SymBranch, Unsupported, ShapeError, has_sym, has_dep, deps_of
 
 # --------------------------------------------------------------------------------------
 
@@ -439,6 +439,15 @@ class Interp:
     # ==================================================================================
     # calls
     # ==================================================================================
+    def is_repo_class(self, cls):
+        try:
+            import sys as _sys
+            f = getattr(_sys.modules.get(cls.__module__), "__file__", "") or ""
+            p = os.path.realpath(f)
+            return p.startswith(self.src_root) or any(p.startswith(r) for r in getattr(self, "extra_roots", ()))
+        except Exception:
+            return False
+
     def is_repo_code(self, fn):
         code = getattr(fn, "__code__", None)
         if code is None:
@@ -470,6 +479,18 @@ class Interp:
             a2 = ([selfarg] if selfarg is not None else []) + args
             self.call_log.append((getattr(key, "__qualname__", str(key)), a2, kwargs))
             return ov(self, *a2, **kwargs)
+        if isinstance(fn, DepMethod):
+            return fn(*args, **kwargs)
+        # 1b. opaque (Dep) arguments to anything that is not repository code: opaque result
+        if (has_dep(args) or has_dep(kwargs)) and not (isinstance(key, types.FunctionType) and self.is_repo_code(key)) and not isinstance(fn, type) or \
+                (isinstance(fn, type) and (has_dep(args) or has_dep(kwargs)) and not self.is_repo_class(fn)):
+            d = deps_of(args) | deps_of(kwargs)
+            t = any(isinstance(a, Dep) and a.tainted for a in list(args) + list(kwargs.values()))
+            from .sym import Dep as _D
+            for a in list(args) + list(kwargs.values()):
+                if isinstance(a, (S, A)) and _D.TRACK in a.e.free_symbols:
+                    t = True
+            return Dep(d, sp.Integer(1), not t)
         # 2. methods of our own symbolic classes / harness stubs
         bself = getattr(fn, "__self__", None)
         if getattr(bself, "__nss_stub__", False) or (isinstance(fn, type) and getattr(fn, "__nss_stub__", False)):
@@ -727,6 +748,9 @@ class Interp:
             raise Unsupported("assignment target %s" % type(t).__name__)
 
     def setitem(self, obj, idx, v):
+        if isinstance(obj, Dep):
+            obj[idx] = v
+            return
         if not isinstance(obj, A):
             self.effect("setitem", obj, None)
             idx = concretize(idx)
@@ -1016,6 +1040,11 @@ class Interp:
             return liftf(getattr(obj, name))
         except (Unsupported, SymBranch):
             raise
+        except AttributeError as ex:
+            if isinstance(obj, (A, S, T, Shape, Dep)):
+                # a numpy attribute the symbolic classes do not model: a limit of the verifier, not of the program
+                raise Unsupported("attribute %r of a symbolic %s" % (name, type(obj).__name__))
+            raise UserRaise(ex)
         except Exception as ex:
             raise UserRaise(ex)
 
@@ -1039,6 +1068,9 @@ class Interp:
 
         if not isinstance(obj, (A, S, T, Shape)):
             idx = concretize(idx)
+        if has_dep(idx) and not isinstance(obj, Dep):
+            d, t = deps_of(idx), any(isinstance(a, Dep) and a.tainted for a in (idx if isinstance(idx, tuple) else (idx,)))
+            return Dep(d | deps_of(obj), sp.Integer(1), not t)
         if isinstance(obj, np.ndarray) and id(obj) in self.named_tables and isinstance(idx, (int, np.integer)) and obj.ndim == 1:
             return S(self.table_symbol(obj, int(idx)), "np")
         if isinstance(obj, np.ndarray) and has_sym(idx):
